@@ -2,6 +2,7 @@ import VaxisModel.Driver.C01
 import VaxisModel.Model.C12Compose
 import VaxisModel.Model.EmuIO
 import VaxisModel.Model.C12Replies
+import VaxisModel.Model.C12Read
 
 /-! Driver for C12: a Vaxis application rendered into the embedded terminal emulator.
 Uses the C01 driver's state for `caps`/`size`/`dict`/`cell`/`showcursor`/`hidecursor` lines, plus:
@@ -32,6 +33,16 @@ Uses the C01 driver's state for `caps`/`size`/`dict`/`cell`/`showcursor`/`hidecu
       emulator model (`runOps`) from the previous state — against the real emulator's full state after
       the real renderer's bytes went through the real parser (`=` when every snapshot token agrees).
 
+      verdict: THE READ-BACK EQUATIONS of `Props/C12Read.lean` evaluated on the real emulator's state:
+      `Model.C12Read.readScreen encHex e.active` = the application's screen (`expectedC`) and
+      `readCursor e` = the requested cursor.
+  emuresize <w> <h> \t <full emulator snapshot after the host resized the emulator>
+      model-canon vs impl-canon: the emulator MODEL's `resize(w, h)` from its state against the real
+      emulator's state (directly or through `Draw` into a window of another size); the model continues
+      from the implementation's state. verdict: the resize left the pen, the cursor visibility and shape
+      as they were and (application on the alternate screen) the active screen blank — the start state
+      of the next segment of `Props/C12Resize.lean`.
+
 For emurender/emudraw/emucaps model-canon and impl-canon are both the oracle's summary. -/
 namespace VaxisModel.Driver.C12
 open VaxisModel.Driver VaxisModel.Model.Render VaxisModel.Spec VaxisModel.Spec.Display
@@ -48,6 +59,8 @@ structure St where
   qEmu : Option VaxisModel.Model.Emu.Emu := none
   qOps : List VaxisModel.Model.Emu.EOp := []
   qReplies : List VaxisModel.Model.Input.Seq := []
+  /-- the application's screen and cursor of the frame just rendered (for the read-back verdict) -/
+  want : Option (List (List DCell) × Option (Int × Int × Int)) := none
   deriving Inhabited
 
 def C05diff (m i : String) : String × String :=
@@ -59,6 +72,17 @@ def C05diff (m i : String) : String × String :=
   (" ".intercalate (d.map (·.1)), " ".intercalate (d.map (·.2)))
 
 def decHex (g : String) : List Nat := (hexBytes? g).getD []
+
+/-- bytes → the renderer model's opaque (hex) string; inverse of `decHex` on lower-case hex. -/
+def encHex (g : List Nat) : String := if g.isEmpty then "" else hexOfBytes g
+
+/-- What `resize()` must leave alone / establish for an application on the alternate screen. -/
+def resizeVerdict (before after : VaxisModel.Model.Emu.Emu) : String :=
+  if after.cur.st ≠ before.cur.st then "FAIL resize changed the pen"
+  else if after.mode.dectcem ≠ before.mode.dectcem ∨ after.cur.shape ≠ before.cur.shape then "FAIL resize changed the cursor visibility or shape"
+  else if before.mode.smcup ∧ !(after.active.all fun r => r.all fun c => c.g.isEmpty && c.w == 0 && c.st == {}) then
+    "FAIL the alternate screen is not blank after resize"
+  else "ok"
 
 /-- One frame through the models: renderer model → wire → emulator model. Also advances the
     renderer model's memory (`last`, cursor, pointer shape, refresh flag). -/
@@ -168,18 +192,42 @@ def step (s : St) (line : String) : St × String :=
       match VaxisModel.Model.EmuIO.parseSnap? impl with
       | some sn => ({ s with emuM := some sn.e, emuDead := false }, "-\t-\t-")
       | none => (s, "-\tunparsed\tFAIL unparsed emulator snapshot")
+  | ["emuresize", w, h] =>
+      match VaxisModel.Model.EmuIO.parseSnap? impl, w.toInt?, h.toInt? with
+      | some sn, some w, some h =>
+        let istr := VaxisModel.Model.EmuIO.renderSnap sn.e
+        let out := match s.emuM with
+          | some e =>
+            let v := resizeVerdict e sn.e
+            (match VaxisModel.Model.Emu.emuStep e (.resize w h) with
+             | .ok (e', _) =>
+               let (a, b) := C05diff (VaxisModel.Model.EmuIO.renderSnap { e' with hasVx := false }) istr
+               s!"{a}\t{b}\t{v}"
+             | .error _ => s!"model-panic\t{istr}\t{v}")
+          | none => "-\t-\t-"
+        ({ s with emuM := some sn.e, emuDead := false, want := none }, out)
+      | _, _, _ => (s, "-\tunparsed\tFAIL unparsed emulator snapshot")
   | ["emustate"] =>
       match VaxisModel.Model.EmuIO.parseSnap? impl with
       | none => (s, "-\tunparsed\tFAIL unparsed emulator snapshot")
       | some sn =>
         let istr := VaxisModel.Model.EmuIO.renderSnap sn.e
+        -- the conclusion of the equational composition theorem, evaluated on the real emulator's state
+        let rb := if s.dead then "-" else match s.want with
+          | none => "-"
+          | some (exp, cur) =>
+            if VaxisModel.Model.C12Read.readScreen encHex sn.e.active != exp then
+              "FAIL read-back of the emulator's grid (readScreen) is not the application's screen"
+            else if VaxisModel.Model.C12Read.readCursor sn.e != cur then
+              "FAIL read-back of the emulator's cursor (readCursor) is not the requested cursor"
+            else "ok"
         -- a frame of this case already failed the oracle (reported as a violation / known finding, e.g.
         -- F112d where the real parser merges two cells' graphemes into one cluster): no cascade
         let out := if s.dead then "-\t-\t-" else match s.emuM with
           | some e =>
             let (a, b) := C05diff (VaxisModel.Model.EmuIO.renderSnap { e with hasVx := false }) istr
-            s!"{a}\t{b}\t-"
-          | none => if s.emuDead then s!"model-panic\t{istr}\t-" else "-\t-\t-"
+            s!"{a}\t{b}\t{rb}"
+          | none => if s.emuDead then s!"model-panic\t{istr}\t{rb}" else s!"-\t-\t{rb}"
         -- continue from the implementation's state (identical to the model's when they agree)
         ({ s with emuM := some sn.e, emuDead := false }, out)
   | [op, enc] =>
@@ -207,7 +255,9 @@ def step (s : St) (line : String) : St × String :=
               else if vis ≠ 0 then "FAIL cursor requested hidden but the emulator shows it"
               else "ok"
           let v := if s.dead then "-" else widthNote exp emu v
-          ({ s with emu := emu, dead := s.dead || (v != "ok" && v != "-") }, s!"chk\tchk\t{v}")
+          let wantCur : Option (Int × Int × Int) :=
+            if s.base.cn.visible then some (s.base.cn.row, s.base.cn.col, (s.base.cn.style : Int)) else none
+          ({ s with emu := emu, dead := s.dead || (v != "ok" && v != "-"), want := some (exp, wantCur) }, s!"chk\tchk\t{v}")
         | _, _ => (s, C01.bad3)
       | _, _ => (s, C01.bad3)
   | ["emudraw"] =>
